@@ -8,6 +8,7 @@ import (
 
 	"github.com/evolbioinfo/gotree/io"
 	"github.com/evolbioinfo/gotree/tree"
+	"github.com/evolbioinfo/gotree/verifhook"
 )
 
 // This function computes the min transfer distance between the refedge and the bootstrap tree.
@@ -237,6 +238,7 @@ func TBE(reftree *tree.Tree, boottrees <-chan tree.Trees, cpu int,
 			for c := 0; c < cpu; c++ {
 				go func() {
 					for e := range edgechan {
+						verifhook.Point("tbe.edge", boot.Id, e.Id())
 						if p, _ := e.TopoDepth(); p > 1 {
 							if _, ok := bootedgeindex.Value(e); ok {
 								if p >= mindepth {
